@@ -71,7 +71,10 @@ class SymSparse:
     def copy(self):
         return SymSparse(self.A.copy())
 
-    def toarray(self):
+    def toarray(self, order=None, out=None):
+        if out is not None:
+            out[...] = self.A
+            return out
         return self.A.copy()
 
     def todense(self):
